@@ -853,7 +853,7 @@ def build_jobs(res, r, thorough):
   for f in sorted(os.listdir(cdir)) if os.path.isdir(cdir) else []:
     d = json.load(open(os.path.join(cdir, f)))
     jobs.append(("corpus:" + f, "corpus", d["src"], {"check": bool(d.get("check"))}))
-  n_prog = 3000 if thorough else 250
+  n_prog = 3000 if thorough else 215
   feats = collections.Counter()
   # programs whose LAST statement produces an error (line clause can only fail at the end of the file): every
   # template with and without a final newline, plus random template/ending/prefix combinations
@@ -866,7 +866,30 @@ def build_jobs(res, r, thorough):
       k += 1
   for _ in range(1200 if thorough else 40):
     src, lab = c15_gen.tail_program(r)
+    if r.random() < .3 and not src.endswith("\r\n"):
+      src = c15_gen.decorate(r, src)
+      lab += "|decorated"
     jobs.append((f"tail{k}:{lab}", "tail-error-construct", src, {"check": k % 3 == 0}))
+    k += 1
+  # DIRECTIVE layer: a structured comment inside a multi-line statement followed by own-line range directives
+  # (every template with a `# type:` and a `# pytype:` comment), plus random template/comment/error-class picks
+  # and force-decorated random programs; a share of all random programs is decorated as well (gen_program)
+  k = 0
+  for nm in sorted(c15_gen.directive_templates()):
+    for cm in ("# type: ignore", "# pytype: disable=ERR"):
+      src, lab = c15_gen.directive_program(r, nm, cm)
+      jobs.append((f"dir{k}:{lab}", "directive-comments", src, {"check": k % 2 == 0}))
+      k += 1
+  for _ in range(1500 if thorough else 25):
+    src, lab = c15_gen.directive_program(r)
+    jobs.append((f"dir{k}:{lab}", "directive-comments", src, {"check": k % 2 == 0}))
+    k += 1
+  for _ in range(1500 if thorough else 25):
+    base, _ = c15_gen.gen_program(r)
+    if "\r" in base:
+      continue
+    src = c15_gen.decorate(r, base, force_inner=True)
+    jobs.append((f"dir{k}:force-decorated", "directive-comments", src, {"check": k % 2 == 0}))
     k += 1
   kinds = collections.Counter()
   progs = []
@@ -1045,7 +1068,10 @@ def run(res):
               "import-free top-level functions/classes cut from CPython 3.12's stdlib, and ~55 templates (x file endings x random "
               "prefixes) whose LAST statement produces an error (implicit return None under -> int/str/List[int] after if/for/"
               "while/try/with/match, nested/async/decorated/method, multi-line calls, decorators, directives, type comments; a "
-              "quarter of the random programs also end in one), each run through the real "
+              "quarter of the random programs also end in one), and a DIRECTIVE layer (comments only: 32 templates with a `# type:`/"
+              "`# pytype:` comment inside a multi-line display/signature/call/with followed by several disable/enable regions; "
+              "40% of the random programs decorated with trailing/own-line/range directives, type comments, invalid names, "
+              "non-ASCII comments), each run through the real "
               "io.check_or_generate_pyi (3/4 infer, 1/4 check mode) in worker processes with a per-file timeout. "
               "Non-trivial = the run finished and was judged (not typeshed-blocked, not timed out); distinct by source text. "
               "CORRESPONDENCE: every exception class of the generated universe x line values x nofail x check injected into "
